@@ -531,6 +531,8 @@ func C16(c *Ctx) {
 				resultP = p
 			}
 		}
+		var factIsEvent func(f core.Fact) bool
+		var isEvent func(v ssa.Value) bool
 		appr := constOfPkg(c, "APPROVED")
 		apprEdges := condEdges(am, func(f core.Fact, ifi *ssa.If) (bool, int) {
 			if f.Kind == core.FEqConst && f.Const == appr && resultP != nil && core.Strip(f.Subject) == ssa.Value(resultP) {
@@ -539,10 +541,49 @@ func C16(c *Ctx) {
 			return false, 0
 		})
 		notApprovedAm := core.Reach([]core.Point{core.EntryOf(am)}, nil, core.CutOf(apprEdges))
+		// factIsEvent: a comparison fact whose subject is the event type (condition facts report `x.f == c` as subject
+		// x, field f)
+		factIsEvent = func(f core.Fact) bool {
+			if f.Field == "" {
+				return isEvent(f.Subject)
+			}
+			vals, ok := core.CtxFieldValuesByName(f.Subject, f.Field)
+			if !ok || len(vals) == 0 || eventP == nil {
+				return false
+			}
+			for _, cv := range vals {
+				if core.Strip(cv) != ssa.Value(eventP) {
+					return false
+				}
+			}
+			return true
+		}
 		// the approved branch may have been split out: a helper called only on the approved branch that receives the
 		// event type is then the home of the per-event cascade
 		home, homeEvent := am, eventP
+		homeConv := core.ConvRespOk
 		inNotApproved := func(in ssa.Instruction) bool { return notApprovedAm.Has(in) }
+		// isEvent: v is the event type as the home function sees it: its parameter, or the field of a context struct
+		// into which Manage stored its own eventTyp parameter
+		isEvent = func(v ssa.Value) bool {
+			v = core.Strip(v)
+			if homeEvent != nil && v == ssa.Value(homeEvent) {
+				return true
+			}
+			if u, ok := v.(*ssa.UnOp); ok {
+				if fa, ok := u.X.(*ssa.FieldAddr); ok {
+					if vals, ok := core.CtxFieldValues(fa); ok && len(vals) > 0 {
+						for _, cv := range vals {
+							if eventP == nil || core.Strip(cv) != ssa.Value(eventP) {
+								return false
+							}
+						}
+						return true
+					}
+				}
+			}
+			return false
+		}
 		for _, call := range core.Calls(am) {
 			h := core.StaticCallee(call)
 			if h == nil || h == am || len(h.Blocks) == 0 || core.PkgOf(h) != core.PkgOf(am) || notApprovedAm.Has(call) || eventP == nil {
@@ -558,6 +599,29 @@ func C16(c *Ctx) {
 				if hasEdge && ai < len(h.Params) && core.Strip(a) == ssa.Value(eventP) {
 					home, homeEvent = h, h.Params[ai]
 					inNotApproved = func(in ssa.Instruction) bool { return false }
+				}
+			}
+			if home == am && hasEdge {
+				// the event type travels in a context struct the helper receives (parameter object)
+				usesCtxEvent := false
+				for _, b := range h.Blocks {
+					if ifi := core.IfOf(b); ifi != nil {
+						if f := core.CondFact(ifi.Cond); f.Kind == core.FEqConst && f.Subject != nil && factIsEvent(f) {
+							usesCtxEvent = true
+						}
+					}
+				}
+				if usesCtxEvent {
+					home, homeEvent = h, nil
+					inNotApproved = func(in ssa.Instruction) bool { return false }
+				}
+			}
+			if home == h {
+				// how Manage reads the helper's result: a *Response that is nil when nothing went wrong, or Ok
+				if cl, ok := call.(*ssa.Call); ok && h.Signature.Results().Len() == 1 {
+					if len(core.SuccessEdges(am, []core.GuardSite{{Call: cl, Conv: core.ConvRespOk, Idx: -1}})) == 0 {
+						homeConv = core.ConvErrNil
+					}
 				}
 			}
 		}
@@ -585,13 +649,19 @@ func C16(c *Ctx) {
 					continue
 				}
 				f := core.CondFact(ifi.Cond)
-				if f.Kind != core.FEqConst || f.Const != w.event || homeEvent == nil || core.Strip(f.Subject) != ssa.Value(homeEvent) {
+				if f.Kind != core.FEqConst || f.Const != w.event || f.Subject == nil || !factIsEvent(f) {
 					continue
 				}
 				found = true
 				rs := core.Reach([]core.Point{{B: b.Succs[holdsEdge(f)], Idx: 0}}, func(in ssa.Instruction) bool { return in == ssa.Instruction(target) }, nil)
 				for _, ret := range core.Returns(home) {
-					if rs.Has(ret) && core.MayBeSuccess(home, ret, 0, core.ConvRespOk) {
+					succ := core.MayBeSuccess(home, ret, 0, homeConv)
+					if succ && homeConv == core.ConvErrNil && !core.IsNilConst(ret.Results[0]) {
+						// a *Response handed back as "something went wrong": a response returned behind its own !Ok test
+						// is not the nil that means success
+						succ = core.MayBeSuccess(home, ret, 0, core.ConvRespOk)
+					}
+					if rs.Has(ret) && succ {
 						ok = false
 					}
 				}
@@ -738,7 +808,11 @@ func C16(c *Ctx) {
 		}
 		n9 := 0
 		for _, fn := range m.funcs {
-			if len(fn.Blocks) == 0 || !strings.Contains(core.FnName(fn), "AppchainManager)") {
+			isAM := strings.Contains(core.FnName(fn), "AppchainManager)")
+			if ct := m.bvm.ContractOfFn(fn); ct != nil && ct.Name == "AppchainManager" {
+				isAM = true // also a method of a context struct that carries the appchain manager
+			}
+			if len(fn.Blocks) == 0 || !isAM {
 				continue
 			}
 			for _, call := range core.Calls(fn) {
